@@ -40,6 +40,8 @@ package mdiff
 //@+     && (forall k int :: {c.Edits[k]} 0 <= k && k < len(c.Edits) ==> editDesc(c.Edits[k], L, R, c.cl[k] - 1, c.cr[k] - 1) && c.cl[k + 1] == c.cl[k] + consumes(c.Edits[k]) && c.cr[k + 1] == c.cr[k] + produces(c.Edits[k]))
 //@
 //@ pred sameChunk(c *Chunk) := c.LStart == old(c.LStart) && c.RStart == old(c.RStart) && c.LEnd == old(c.LEnd) && c.REnd == old(c.REnd) && c.Edits == old(c.Edits) && c.cl == old(c.cl) && c.cr == old(c.cr)
+// sameRun(L, R, l, r, n): the n lines of L from l and of R from r are the same, line by line (0-based offsets).
+//@ pred sameRun(L []string, R []string, l int, r int, n int) := 0 <= l && 0 <= r && 0 <= n && l + n <= len(L) && r + n <= len(R) && (forall x int :: {L[x]} l <= x && x < l + n ==> eqv(slice.equal, L[x], R[x - l + r]))
 //@ pred owns(d *Diff) := (forall j int :: {d.Chunks[j]} 0 <= j && j < len(d.Chunks) ==> len(d.Chunks[j].Edits) > 0 && d.Chunks[j].Edits.base != d.Edits.base)
 //@+     && (forall a int, b int :: {d.Chunks[a], d.Chunks[b]} 0 <= a && a < b && b < len(d.Chunks) ==> d.Chunks[a] != d.Chunks[b] && d.Chunks[a].Edits.base != d.Chunks[b].Edits.base)
 //@ pred ctxOK(c *Chunk, n int) := old(c.LStart) - ite(n > 0, n, 0) <= c.LStart && c.LStart <= old(c.LStart) && old(c.LStart) - c.LStart == old(c.RStart) - c.RStart && old(c.LEnd) <= c.LEnd && c.LEnd <= old(c.LEnd) + ite(n > 0, n, 0) && c.LEnd - old(c.LEnd) == c.REnd - old(c.REnd)
@@ -49,6 +51,10 @@ package mdiff
 //@   ensures [C13] chunks: forall j int :: {result.Chunks[j]} 0 <= j && j < len(result.Chunks) ==> chunkOK(result.Chunks[j], lhs, rhs)
 //@   ensures [C13] described: forall j int :: {result.Chunks[j]} 0 <= j && j < len(result.Chunks) ==> chunkDesc(result.Chunks[j], lhs, rhs)
 //@   ensures [C13] owns: owns(result)
+//@   ensures [C13] head: len(result.Chunks) > 0 ==> result.Chunks[0].LStart == result.Chunks[0].RStart && sameRun(lhs, rhs, 0, 0, result.Chunks[0].LStart - 1)
+//@   ensures [C13] gaps: forall a int, b int :: {result.Chunks[a], result.Chunks[b]} 0 <= a && b == a + 1 && b < len(result.Chunks) ==> result.Chunks[b].LStart - result.Chunks[a].LEnd == result.Chunks[b].RStart - result.Chunks[a].REnd && sameRun(lhs, rhs, result.Chunks[a].LEnd - 1, result.Chunks[a].REnd - 1, result.Chunks[b].LStart - result.Chunks[a].LEnd)
+//@   ensures [C13] tail: len(result.Chunks) > 0 ==> len(lhs) + 1 - result.Chunks[len(result.Chunks) - 1].LEnd == len(rhs) + 1 - result.Chunks[len(result.Chunks) - 1].REnd && sameRun(lhs, rhs, result.Chunks[len(result.Chunks) - 1].LEnd - 1, result.Chunks[len(result.Chunks) - 1].REnd - 1, len(lhs) + 1 - result.Chunks[len(result.Chunks) - 1].LEnd)
+//@   ensures [C13] none: len(result.Chunks) == 0 ==> len(lhs) == len(rhs) && sameRun(lhs, rhs, 0, 0, len(lhs))
 //@   ensures [C13] ordered: forall a int, b int :: {result.Chunks[a], result.Chunks[b]} 0 <= a && b == a + 1 && b < len(result.Chunks) ==> result.Chunks[a].LEnd <= result.Chunks[b].LStart && result.Chunks[a].REnd <= result.Chunks[b].RStart
 //@   at after "es := slice.EditScript(lhs, rhs)": ghost lp = EditScript_lp
 //@   at after "es := slice.EditScript(lhs, rhs)": ghost rp = EditScript_rp
@@ -59,6 +65,9 @@ package mdiff
 //@   at after "cur.Edits = append(cur.Edits, e)": ghost cur.cl = upd(cur.cl, len(cur.Edits), cur.LEnd)
 //@   at after "cur.Edits = append(cur.Edits, e)": ghost cur.cr = upd(cur.cr, len(cur.Edits), cur.REnd)
 //@   loop 1: invariant [C13] script: len(es) > 0 ==> scriptOK(es, lhs, rhs, slice.equal, lp, rp) && lp[len(es)] == len(lhs) && rp[len(es)] == len(rhs)
+//@   loop 1: invariant [C13] run: lcur - cur.LEnd == rcur - cur.REnd && sameRun(lhs, rhs, cur.LEnd - 1, cur.REnd - 1, lcur - cur.LEnd)
+//@   loop 1: invariant [C13] head: out[0].LStart == out[0].RStart && sameRun(lhs, rhs, 0, 0, out[0].LStart - 1)
+//@   loop 1: invariant [C13] gaps: forall a int, b int :: {out[a], out[b]} 0 <= a && b == a + 1 && b < len(out) ==> out[b].LStart - out[a].LEnd == out[b].RStart - out[a].REnd && sameRun(lhs, rhs, out[a].LEnd - 1, out[a].REnd - 1, out[b].LStart - out[a].LEnd)
 //@   loop 1: invariant [C13] pos: len(es) > 0 ==> lcur == lp[it1] + 1 && rcur == rp[it1] + 1 && 0 <= lp[it1] && 0 <= rp[it1]
 //@   loop 1: invariant [C13] cur: len(out) >= 1 && fresh(out) && cur == out[len(out) - 1] && partial(cur, lhs, rhs) && cur.LEnd <= lcur && cur.REnd <= rcur
 //@   loop 1: invariant [C13] done: forall j int :: {out[j]} 0 <= j && j < len(out) - 1 ==> chunkOK(out[j], lhs, rhs)
